@@ -51,6 +51,8 @@ SHAPES = {
     # a falsy key (dictionary helpers only): the empty string.  Keys are
     # strings by the HierarchyPath type (assoc_in passes them as keywords)
     's4': {'': {'': {'x': 1}, 'b': {'x': 2}}, 'b': {'x': 3}},
+    # empty dictionaries below the top level: branches without leaves
+    's5': {'a': {'b': {'x': 1}, 'a': {}}, 'b': {}},
 }
 
 
@@ -69,6 +71,9 @@ def jobs(tier):
                         else ['a', 'b', 'c', 'x'],
                         budget_s=100 if tier == 'quick' else 900,
                         crosscheck=20 if tier == 'thorough' else 0))
+    out.append(dict(name='dict-s5-empty-branches', part='dict', shape='s5',
+                    maxlen=3, alph=['a', 'b', 'x'],
+                    budget_s=100 if tier == 'quick' else 600))
     out.append(dict(name='dict-s4-falsy-keys', part='dict', shape='s4',
                     maxlen=3, alph=['', 'b', 'x'],
                     budget_s=100 if tier == 'quick' else 600))
